@@ -45,6 +45,8 @@ structure KState where
   /-- the watch buffers overflowed (changes were lost): until a list of the current state completes, the cache is
       only per key a past state of the server -/
   lossy : Bool := false
+  /-- virtual time of the previous observation -/
+  lastNow : Nat := 0
 
 def stateAt (h : List (Int × EvT × Obj)) (n : Nat) : Items Key Obj :=
   (h.take n).foldl (fun m e => serverApply m e.2.1 e.2.2) []
@@ -82,9 +84,9 @@ def ctrlLine (st : KState) (e : SExp) : KState × String :=
      | .list [.atom "closeroot"] => ({ st with closing := true }, "skip")
      | .list [.atom "cancel"] => ({ st with closing := true }, "skip")
      | .list [.atom "close-returned", b] =>
-       if decBool b == some true then (st, "skip") else (st, "reject C12 Close() has not returned at the quiescent point after it was called")
+       if decBool b == some true then (st, "skip") else (st, "reject C12/C11 Close() has not returned at the quiescent point after it was called")
      | .list [.atom "cobs", _, _, d, _, _, _, _, _, _, _, _] =>
-       if st.closing && decBool d == some false then (st, "reject C12 the controller is not done at the quiescent point after Close/cancel")
+       if st.closing && decBool d == some false then (st, "reject C12/C11 the controller is not done at the quiescent point after Close/cancel")
        else (st, "skip")
      | _ => (st, "skip")) else
   match e with
@@ -114,7 +116,7 @@ def ctrlLine (st : KState) (e : SExp) : KState × String :=
   | .list [.atom "closeroot"] => ({ st with closing := true }, "ok")
   | .list [.atom "cancel"] => ({ st with closing := true }, "ok")
   | .list [.atom "close-returned", b] =>
-    if decBool b == some true then (st, "ok") else ({ st with dead := true }, "reject C12 Close() has not returned at the quiescent point after it was called")
+    if decBool b == some true then (st, "ok") else ({ st with dead := true }, "reject C12/C11 Close() has not returned at the quiescent point after it was called")
   | .list [.atom "cobs", .atom now, r, d, .atom err, c, evs, ec, sd, .atom live, .atom maxActive, calls] =>
     match decBool r, decBool d, decCache c, decEvs evs, decBool ec with
     | some r, some d, some c, some ievs, some ec =>
@@ -135,7 +137,7 @@ def ctrlLine (st : KState) (e : SExp) : KState × String :=
       let doneLists := (lists.filter (·.finish > 0)).length
       let spoiled := if doneLists > st.spoiledAt then [] else st.spoiled
       let unspoil (l : List Obj) : List Obj := l.filter (fun o => !spoiled.contains o.key)
-      let st1 := { st with lists := lists, nLists := doneLists, lastCache := c, spoiled := spoiled }
+      let st1 := { st with lists := lists, nLists := doneLists, lastCache := c, spoiled := spoiled, lastNow := now }
       let fail (m : String) : KState × String := ({ st1 with dead := true }, m)
       -- ---- C14: list failures are fail-stop and reported; nothing else is fatal
       if failed && !st.closing then
@@ -147,9 +149,9 @@ def ctrlLine (st : KState) (e : SExp) : KState × String :=
         else if sd == .atom "false" then fail "reject C14/C11 the controller stopped on a list failure but its subscriber is not done"
         else (st1, "ok")
       else if d && !st.closing then
-        fail s!"reject C14 the controller stopped (Error {err}) although no list failed and nobody closed it"
+        fail s!"reject C14/C04/C03 the controller stopped (Error {err}) although no list failed and nobody closed it"
       else if st.closing then
-        if !d then fail "reject C12 the controller is not done at the quiescent point after Close/cancel"
+        if !d then fail "reject C12/C11 the controller is not done at the quiescent point after Close/cancel"
         else if err != "nil" && err != "canceled" && !failed then fail s!"reject C14 a deliberately closed controller reports Error {err}"
         else if sd == .atom "false" then fail "reject C11 the controller is done but its subscriber is not"
         else (st1, "ok")
@@ -232,8 +234,20 @@ def ctrlLine (st : KState) (e : SExp) : KState × String :=
                 (match cl.2.2.2.toInt? with
                  | some v => v > rvAt st.history (if mustBeCurrent then n else jmax) && v > (match lists.getLast? with | some l => l.rv.toInt?.getD 0 | none => 0)
                  | none => !(st.emptyRV && cl.2.2.2 == "")))
+              -- … and not from before the last event received: when every list had completed by the previous
+              -- observation, what the cache reflected then (event `st.applied`) had been received, and a reconnect since
+              -- must not go back behind it (the server would replay what was already delivered)
+              let listsOld := lists.all (fun l => l.finish > 0 && l.finish ≤ st.lastNow) && !listing
+              let wlow := if st.lossy || st.stale || st.emptyRV || !st.spoiled.isEmpty || !spoiled.isEmpty || !listsOld || !st.wasReady then none
+                else calls.find? (fun cl => cl.1 == "watch" &&
+                  (match cl.2.2.2.toInt? with
+                   | some v => v < rvAt st.history st.applied
+                   | none => false))
               match wbad with
               | some cl => fail s!"reject C04 Watch was called with resourceVersion {cl.2.2.2}, beyond what the controller has received"
+              | none =>
+              match wlow with
+              | some cl => fail s!"reject C04 Watch was called with resourceVersion {cl.2.2.2} although the controller had already received the change at version {rvAt st.history st.applied}: the reconnect does not resume after the last event received"
               | none => ({ st1 with applied := if mustBeCurrent then n else j, wasReady := true,
                                     lossy := st.lossy && !listedNow }, "ok")
     | _, _, _, _, _ => (st, "bad cobs")
